@@ -43,6 +43,8 @@ pub struct ExpField {
     /// the member's own occurrence requires it (minOccurs >= 1) whenever its group is present
     #[serde(default)]
     pub required_in_group: bool,
+    /// `attribute ref="xml:lang"`
+    pub xml_lang: bool,
 }
 
 #[derive(Clone, Debug, PartialEq, Eq, Serialize, Deserialize)]
@@ -139,6 +141,7 @@ fn flatten(m: &Model, file: usize, p: &Particle, ctx: &Ctx, out: &mut Vec<ExpFie
             choice_group: ctx.choice_group,
             in_optional_group: ctx.seq_optional,
             required_in_group: !occ.optional(),
+            xml_lang: false,
         }),
         Particle::Ref { to, occ } => {
             let c = m.comp(*to);
@@ -156,6 +159,7 @@ fn flatten(m: &Model, file: usize, p: &Particle, ctx: &Ctx, out: &mut Vec<ExpFie
                 choice_group: ctx.choice_group,
                 in_optional_group: ctx.seq_optional,
                 required_in_group: !occ.optional(),
+            xml_lang: false,
             });
         }
         Particle::Seq(s) => {
@@ -224,6 +228,7 @@ pub fn body_fields(m: &Model, file: usize, b: &Body, depth_guard: usize) -> Vec<
             choice_group: None,
             in_optional_group: false,
             required_in_group: a.use_ == AttrUse::Required,
+            xml_lang: a.xml_lang,
         });
     }
     out
